@@ -223,13 +223,15 @@ def _get_payload(msg: email.message.Message, source: bytes | str) -> str:
     # and we don't need to deal with it.
     if isinstance(source, str):
         payload = msg.get_payload()
-        assert isinstance(payload, str)
+        if not isinstance(payload, str):
+            raise ValueError("payload is not a single text body")
         return payload
     # If our source is a bytes, then we're managing the encoding and we need
     # to deal with it.
     else:
         bpayload = msg.get_payload(decode=True)
-        assert isinstance(bpayload, bytes)
+        if not isinstance(bpayload, bytes):
+            raise ValueError("payload is not a single body")
         try:
             return bpayload.decode("utf8", "strict")
         except UnicodeDecodeError as exc:
